@@ -585,7 +585,7 @@ func RunCheck(w *vrt.W, i int, p *Profile, ck Check, rot int) {
 		c.FailAt = r.IntN(9)
 	}
 	Cur = c
-	if fl := SetErrFlavour(rot); p.Nfail > 1 && p != ProfEither {
+	if fl := SetErrFlavour(rot); (p.Nfail > 1 && p != ProfEither) || strings.Contains(ck.Name, "Try") {
 		c.Note("failure values Errs[1..4]: %s", fl)
 		w.Add("errors.flavour."+fl+"."+p.Pkg, 1)
 	}
